@@ -44,6 +44,8 @@ ASSUMPTIONS = [
 ]
 
 GROUPS = progen.ALL_GROUPS - {"csr", "loopy"}
+ADVERSARIAL = ("_pt_tmp_0", "np", "_pt_tmp_1", "_pt_np", "_pt_tmp", "_pt_kernel",
+               "_pt_tmp_2", "numpy", "_pt_tmp_3")
 NOT_SUPPORTED = ("NotImplementedError", "UnknownIndexLambdaExpr",
                  "UnsupportedArrayError")
 
@@ -133,6 +135,11 @@ def case_oracle(spec):
         try:
             bp = generate(g)
         except Exception as e:  # noqa: BLE001
+            if isinstance(e, ValueError) and spec.get("adversarial_name"):
+                # a placeholder named like the module shorthand, the entry
+                # point or a generated temporary may be refused
+                info["unsupported"] = "ValueError: name refused"
+                return None, info
             if type(e).__name__ in NOT_SUPPORTED:
                 info["unsupported"] = f"{type(e).__name__}: {str(e)[:60]}"
                 return None, info
@@ -232,9 +239,22 @@ def run_shard(shard: int, nshards: int, seed: int, tier: str) -> ShardResult:
     res = ShardResult()
     cfg = progen.GenCfg(max_ops=pl["max_ops"], groups=frozenset(GROUPS))
 
+    k = [0]
+
     def body(pv):
         spec, vals = pv
         spec = gc(spec)
+        k[0] += 1
+        if k[0] % 6 == 0:
+            # names close to what the generated code uses itself: refused
+            # (ValueError) or kept apart, never silently shadowed
+            ph = [n for n in spec["nodes"] if n["op"] == "placeholder"]
+            if ph:
+                nm = ADVERSARIAL[(k[0] // 6) % len(ADVERSARIAL)]
+                if not any(n["p"]["name"] == nm for n in ph):
+                    ph[(k[0] // 6) % len(ph)]["p"]["name"] = nm
+                    spec["adversarial_name"] = nm
+                    res.count("adversarial_placeholder_name")
         f, info = case_oracle(spec)
         res.evaluations += 1
         if "skip" in info:
